@@ -65,7 +65,8 @@ type memRig struct {
 	proposalShare float64
 	// certOverride, when set, certifies the next candidate instead of certify (forged certificates)
 	certOverride func(s *common.Snapshot) *crypto.CosiSignature
-	seq       int
+	forceK       int // certify: exactly this many signers (0 = by the threshold)
+	seq          int
 }
 
 func newMemRig(r *crun, seed uint64) (*memRig, error) {
@@ -135,6 +136,9 @@ func (m *memRig) certify(s *common.Snapshot, drop int, corrupt int) *crypto.Cosi
 	k := T + m.rng.IntN(len(nodes)-T+1)
 	if drop > 0 {
 		k = T - drop
+	}
+	if m.forceK > 0 && m.forceK <= len(nodes) {
+		k = m.forceK
 	}
 	if k < 1 {
 		k = 1
